@@ -213,6 +213,9 @@ def apply_op(op, cur, arg):
     if op == "+":
         if is_int(cur) and is_int(arg):
             return I(int(cur[1]) + int(arg[1]))
+        if t == "f" and is_int(arg):
+            from ..canon import cF, hex2f
+            return cF(hex2f(cur[1]) + int(arg[1]))
         if t == "v" and is_int(arg) and all(is_int(x) for x in cur[1]):
             return ["v", [I(int(x[1]) + int(arg[1])) for x in cur[1]]]
         return RAISE
@@ -471,6 +474,10 @@ def menu_lists():
         ("assign", a, [i_(0)], VB), ("assign", a, [i_(0)], SEVEN), ("assign", a, [i_(1)], L8), ("assign", a, [i_(0), i_(0)], SEVEN),
         ("assign", b, [i_(0), i_(0)], lit(I(6), "6")), ("assign", c, [i_(0), i_(0)], lit(I(5), "5")), ("assign", c, [i_(0), i_(0), i_(0)], lit(I(4), "4")),
         ("assign", a, [i_(-1)], VA),
+        # values that are == to what is stored but not identical (level / nesting): a store must still store them
+        ("assign", a, [i_(0)], lit(["f", "3ff0000000000000"], "1.0")), ("assign", a, [i_(0), i_(0)], lit(["f", "3ff0000000000000"], "1.0")),
+        ("assign", a, [i_(1)], lit(L(["f", "4008000000000000"]), "[3.0]")), ("assign", b, [i_(0)], lit(L(["f", "3ff0000000000000"], I(2)), "[1.0, 2]")),
+        ("update", b, a, 0, lit(["f", "3ff0000000000000"], "1.0")),
         ("op", a, [], "append", lit(I(9), "9")), ("op", a, [], "append", VB), ("op", a, [i_(0)], "append", lit(I(9), "9")),
         ("op", b, [i_(0)], "append", lit(I(3), "3")), ("op", c, [i_(0)], "append", lit(I(2), "2")), ("op", a, [], "++", lit(L(I(6)), "[6]")),
         ("op", a, [i_(0)], "++", lit(L(I(6)), "[6]")), ("op", a, [i_(0), i_(0)], "+", ONE), ("op", a, [], "++", VA),
@@ -491,6 +498,8 @@ def menu_dicts():
     a, b, c = "a", "b", "c"
     return [
         ("assign", b, [], VA), ("assign", a, [], VC), ("assign", c, [], ("dict", VA)), ("assign", a, [k_(1)], SEVEN), ("assign", a, [k_(3)], L8),
+        ("assign", a, [k_(1)], lit(L(["f", "3ff0000000000000"]), "[1.0]")), ("assign", a, [k_(1), i_(0)], lit(["f", "3ff0000000000000"], "1.0")),
+        ("assign", b, [k_(2)], lit(L(["f", "4000000000000000"]), "[2.0]")),
         ("assign", a, [k_(1), i_(0)], SEVEN), ("assign", a, [k_(2)], VB), ("assign", c, [k_(1), k_(1), i_(0)], lit(I(4), "4")),
         ("op", a, [k_(1)], "append", lit(I(9), "9")), ("op", b, [k_(2)], "append", lit(I(3), "3")), ("op", c, [k_(1)], "append", lit(I(5), "5")),
         ("op", c, [k_(2)], "append", lit(I(6), "6")), ("op", a, [k_(1)], "++", lit(L(I(6)), "[6]")), ("op", a, [k_(1), i_(0)], "+", ONE),
@@ -526,7 +535,8 @@ def menu_struct():
     a, b, c = "a", "b", "c"
     return [
         ("assign", b, [], VA), ("assign", a, [], VB), ("assign", c, [], ("list", VA, VA)), ("op", a, [f_(0)], "append", lit(I(5), "5")),
-        ("assign", a, [f_(1)], lit(I(9), "9")), ("assign", a, [f_(0), i_(0)], SEVEN), ("assign", a, [f_(1)], VA), ("assign", a, [f_(0)], VB),
+        ("assign", a, [f_(1)], lit(I(9), "9")), ("assign", a, [f_(0), i_(0)], SEVEN), ("assign", a, [f_(1)], lit(["f", "4000000000000000"], "2.0")),
+        ("assign", a, [f_(0)], lit(L(["f", "3ff0000000000000"]), "[1.0]")), ("assign", c, [i_(0), f_(1)], lit(["f", "4000000000000000"], "2.0")), ("assign", a, [f_(1)], VA), ("assign", a, [f_(0)], VB),
         ("op", c, [i_(0), f_(0)], "append", ONE), ("assign", c, [i_(1), f_(1)], L8), ("op", a, [f_(1)], "+", ONE), ("op", b, [f_(0)], "++", lit(L(I(6)), "[6]")),
         ("swap", a, [], b, []), ("swap", a, [f_(0)], a, [f_(1)]), ("swap", a, [f_(0)], b, [f_(0)]), ("consume", c, a), ("pop", a, [f_(0)]),
         ("remove", a, [f_(0), i_(0)]), ("every", c, [("s", 0, 2), f_(1)], SEVEN), ("tuple", a, b, b, a),
